@@ -214,7 +214,7 @@ func main() {
 	}
 	r := seq.New("C07", tier, "exploration")
 	defer r.CrashGuard()
-	defer r.Watch()()
+	stopWatch := r.Watch()
 	child := seq.ShardMode()
 	if child {
 		r.SetShardMode()
@@ -402,6 +402,7 @@ func main() {
 	if child {
 		r.FinishShard()
 	}
+	stopWatch() // (the parent now only waits for the other build's process, which has its own watchdog)
 	if bin := os.Getenv("C07_CBOR_BIN"); bin != "" {
 		if err := seq.MergeChild(r, bin, os.Args[1:], "C07_BUILD=cbor"); err != nil {
 			fmt.Println("INFRA:", err)
